@@ -1,4 +1,5 @@
 import PqVerif.Lemmas.PermLaws
+import PqVerif.Lemmas.PermSpec
 
 /-!
 # C04 — matrix-function kernels equal their combinatorial definitions (partial)
@@ -6,9 +7,10 @@ import PqVerif.Lemmas.PermLaws
 Proved here, about the algorithm model of `permanent_cpp` (`Model/Kernel.lean`): the binomial
 helper, the exact incremental weight update, each job = the direct BBFG summands, the one-thread
 value = the plain sum over all Gray codes, independence of the job partition, and the exact point
-where the C `int` weight stops being exact.  NOT proved: that the BBFG sum equals the permanent
-(Glynn's formula with multiplicities) and the hafnian / torontonian / Pfaffian algorithms — these
-are tied to the defining sums by exact correspondence only (see DESIGN.md).
+where the C `int` weight stops being exact.  Also proved (`permanent_eq_permSpec`): the model's value IS the permanent with multiplicities (Glynn's
+formula).  NOT proved: the hafnian / torontonian / Pfaffian algorithms, and the equality of the `int`
+kernel with the unbounded-integer model beyond the overflow guard — tied to the defining sums by exact
+correspondence only (see DESIGN.md).
 -/
 namespace Pq.C04
 open Pq.Kernel
@@ -48,6 +50,20 @@ theorem permanent_threads_independent (A : List (List K)) (rows cols : List Nat)
     (hA : A.length = rows.length ∧ ∀ r ∈ A, r.length = cols.length) :
     permanent false t₁ A rows cols = permanent false t₂ A rows cols :=
   Pq.Kernel.permanent_threads_independent A rows cols t₁ t₂ h₁ h₂ hA
+
+/-- **the kernel computes the permanent**: the algorithm model of `permanent_cpp` returns the defining
+sum over bijections between the expanded columns and the expanded rows, for every matrix, every
+multiplicity pattern with equal totals and every thread count ≥ 1 (exact arithmetic, unbounded integer
+weights; Glynn's formula with multiplicities is `Pq.Glynn.glynn_mult_gen`) -/
+theorem permanent_eq_permSpec [CharZero K] {n m : Nat} (A : Fin n → Fin m → K) (rows : Fin n → Nat)
+    (cols : Fin m → Nat) (threads : Nat) (ht : 0 < threads) (hsum : ∑ i, rows i = ∑ j, cols j) :
+    permanent false threads (matList A) (vecList rows) (vecList cols) = some (permSpec A rows cols) :=
+  Pq.Kernel.permanent_eq_permSpec A rows cols threads ht hsum
+
+theorem permanent_none_of_ne {n m : Nat} (A : Fin n → Fin m → K) (rows : Fin n → Nat)
+    (cols : Fin m → Nat) (threads : Nat) (hsum : ∑ i, rows i ≠ ∑ j, cols j) :
+    permanent false threads (matList A) (vecList rows) (vecList cols) = none :=
+  Pq.Kernel.permanent_none_of_ne A rows cols threads hsum
 
 /-- C `int` arithmetic is exact while the values stay within 32 bits … -/
 theorem wrap32_of_small (z : Int) (h1 : -2147483648 ≤ z) (h2 : z < 2147483648) : wrap32 z = z :=
